@@ -2,6 +2,7 @@ package main
 
 import (
 	"fmt"
+	"go/constant"
 	"go/token"
 	"go/types"
 	"strings"
@@ -260,6 +261,17 @@ func (c *Ctx) classifyLoop(fn *ssa.Function, l *natLoop) string {
 			if k, isK := bound.(*ssa.Const); isK && k.Value != nil {
 				return true // a constant below the maximum is what the compiler would accept anyway
 			}
+			// the smaller of something and a constant (which is below the type's maximum, or the
+			// compiler would have refused it in a comparison that can be true)
+			if cl, ok := bound.(*ssa.Call); ok && calleeName(&cl.Call) == "builtin:min" {
+				for _, a := range cl.Call.Args {
+					if k, isK := a.(*ssa.Const); isK && k.Value != nil {
+						if u, okU := constant.Uint64Val(k.Value); okU && u < ^uint64(0) && sizeOfBasic(bt) == 8 {
+							return true
+						}
+					}
+				}
+			}
 			// widened from a narrower unsigned type, or a length
 			switch x := bound.(type) {
 			case *ssa.Convert:
@@ -496,12 +508,16 @@ func (c *Ctx) cryptobyteLoop(fn *ssa.Function, l *natLoop) string {
 		for b2 := range l.blocks {
 			for _, in := range b2.Instrs {
 				rd, ok := in.(*ssa.Call)
-				if !ok || len(rd.Call.Args) == 0 || rd.Call.Args[0] != recv {
+				if !ok || len(rd.Call.Args) == 0 {
 					continue
 				}
 				name := calleeName(&rd.Call)
-				if !strings.Contains(name, "cryptobyte.String).Read") && !strings.Contains(name, "cryptobyte.String).Skip") {
-					continue
+				if rd.Call.Args[0] != recv || (!strings.Contains(name, "cryptobyte.String).Read") && !strings.Contains(name, "cryptobyte.String).Skip")) {
+					// or a helper of the module that is handed the String and reports success only
+					// after a read on it succeeded
+					if !consumingHelper(rd, recv) {
+						continue
+					}
 				}
 				domAll := true
 				for _, lt := range l.latches {
@@ -526,6 +542,50 @@ func (c *Ctx) cryptobyteLoop(fn *ssa.Function, l *natLoop) string {
 		}
 	}
 	return ""
+}
+
+// consumingHelper: the call hands the *cryptobyte.String to a module function with a bool result
+// that cannot return true unless one of its reads on that parameter succeeded.
+func consumingHelper(call *ssa.Call, str ssa.Value) bool {
+	g := call.Call.StaticCallee()
+	if g == nil || len(g.Blocks) == 0 || !inModule(g) || g.Signature.Results().Len() != 1 {
+		return false
+	}
+	if bt, ok := g.Signature.Results().At(0).Type().Underlying().(*types.Basic); !ok || bt.Kind() != types.Bool {
+		return false
+	}
+	pi := -1
+	for i, a := range call.Call.Args {
+		if a == str {
+			pi = i
+		}
+	}
+	if pi < 0 || pi >= len(g.Params) {
+		return false
+	}
+	param := g.Params[pi]
+	reads := 0
+	w := (&Walk{Fn: g, Assume: func(v ssa.Value) (Val, bool) {
+		rd, ok := v.(*ssa.Call)
+		if !ok || len(rd.Call.Args) == 0 || rd.Call.Args[0] != ssa.Value(param) {
+			return unknown, false
+		}
+		name := calleeName(&rd.Call)
+		if strings.Contains(name, "cryptobyte.String).Read") || strings.Contains(name, "cryptobyte.String).Skip") {
+			reads++
+			return vBool(false), true
+		}
+		return unknown, false
+	}}).FromEntry()
+	if reads == 0 || w.overflow || len(w.Returns) == 0 {
+		return false
+	}
+	for _, ro := range w.Returns {
+		if len(ro.Vals) != 1 || ro.Vals[0].Kind != 1 || ro.Vals[0].B {
+			return false
+		}
+	}
+	return true
 }
 
 // appendGrowthLoop: `for len(x.f) <= bound { x.f = append(x.f, ...) }` and
